@@ -223,7 +223,9 @@ class Scheduler:
     for name, fn in programs.items():
       self.state[name] = 'ready'
       self.ctx[name] = dict(op=None, sel=None, merged=False, locked_once=False, holding=False, ctor_depth=0)
-      t = threading.Thread(target=body, args=(name, fn), daemon=True)
+      # every worker carries the same Thread.name (names need not be unique): per-thread state must hang on the
+      # thread itself, not on what it is called
+      t = threading.Thread(target=body, args=(name, fn), daemon=True, name='gin-worker')
       self.threads[name] = t
     self.turn = 'scheduler'
     for t in self.threads.values():
